@@ -69,6 +69,11 @@ class Scope(object):
                 for t in n.targets if isinstance(n, ast.Assign) else [n.target]:
                     if isinstance(t, ast.Name):
                         self.defs.setdefault(t.id, []).append(n.value)
+                    elif isinstance(t, (ast.Tuple, ast.List)) and isinstance(n.value, (ast.Tuple, ast.List)) and len(t.elts) == len(n.value.elts):
+                        # a, b = set(), 0  — element-wise
+                        for te, ve in zip(t.elts, n.value.elts):
+                            if isinstance(te, ast.Name) and not isinstance(ve, ast.Starred):
+                                self.defs.setdefault(te.id, []).append(ve)
             elif isinstance(n, ast.AugAssign) and isinstance(n.target, ast.Name):
                 self.defs.setdefault(n.target.id, []).append(n.value)
 
